@@ -283,7 +283,7 @@ impl Jsonify for Value {
       Value::Number(value) => value.jsonify(),
       Value::Null(_) => "null".to_string(),
       Value::String(s) => format!("\"{}\"", json_escape(s)),
-      _ => format!("jsonify not implemented for: {}", self),
+      other => format!("\"{}\"", json_escape(&other.to_string())),
     }
   }
 }
